@@ -22,7 +22,7 @@ RULE = ("full in-memory stack; byte strings of EVERY length 0..3100 (covering th
 ASSUMPTIONS = ["payloads are published after the client's handshake (incl. its enableBLOB) has been processed",
                "known finding: a payload message longer than the junk threshold on a link whose threshold is enabled is dropped"]
 REQUIRED_EVENTS = ["sessions", "payloads_published", "payloads_uploaded", "payloads_verified", "no_payload_checks", "republished_same_object",
-                   "buffer_process_calls_guarded", "half_way_holds", "following_traffic_checks", "drains_that_waited_for_a_slow_peer", "snooping_client_blob_checks", "routed_messages_checked_for_mutation"]
+                   "buffer_process_calls_guarded", "half_way_holds", "following_traffic_checks", "drains_that_waited_for_a_slow_peer", "snooping_client_blob_checks", "routed_messages_checked_for_mutation", "read_handler_backed_blobs_published"]
 
 FORMATS = [".fits", "", ".bin", ".é", ".fits.z", ".ÿ<&>"]
 FRAGS = ["1024", "1", "random"]
@@ -45,7 +45,7 @@ def make_spec():
         return {"attr": attr, "kind": kind, "name": name, "label": None, "state": None, "perm": None, "timeout": None, "enabled": True,
                 "elements": [{"attr": f"e{i}", "name": f"{name}_E{i}", "label": None, "default": None, "enabled": True} for i in range(els)]}
     return {"name": "CAM", "levels": [{"groups": [{"attr": "g", "name": "G", "enabled": True,
-                                                   "vectors": [vec("b", "BLOB", "IMG", 2), vec("t", "Text", "TXT", 1)]}]}]}
+                                                   "vectors": [vec("b", "BLOB", "IMG", 3), vec("t", "Text", "TXT", 1)]}]}]}
 
 
 def payload(rng, n):
@@ -103,7 +103,19 @@ async def session(ctx, case):
         stats = bufmon.guard_process(patch)
         router = Router()
         spec = make_spec()
-        drv = D.build(spec)(router=router)
+        hw = {"frame": None, "reads": 0}
+
+        def leaf_hook(ns, defs):
+            from indi.device import events
+            from indi.device.events import on
+
+            def grab(self, event):
+                # the third BLOB element is never assigned: its value comes from the "camera" whenever it is read
+                hw["reads"] += 1
+                if hw["frame"] is not None:
+                    event.element.reset_value(hw["frame"])
+            ns["grab"] = on(defs["g"].vectors["b"].elements["e2"], events.Read)(grab)
+        drv = D.build(spec, leaf_hook=leaf_hook)(router=router)
         snoop = None
         if case["n"] % 2:
             # another driver of the same process snoops the camera's images (a guider, a plate solver): its in-process client is
@@ -262,6 +274,7 @@ async def session(ctx, case):
                     data2 = bytes((b + 1) % 256 for b in data[::-1]) + (b"+" if n % 2 else b"")
                     frame.binary = data2
                     frame.format = fmt + "2"
+                    mark2 = len(target_link.s_writer.data)
                     el.value = frame
                     if await sess.quiesce() < 0:
                         ctx.violate("stall:after-republication", "loop did not quiesce", case)
@@ -270,9 +283,25 @@ async def session(ctx, case):
                     if p:
                         ctx.violate(p[0] + ":republished-object", p[1], case)
                         return False
+                    # the hardware-backed element: published by a state change, never assigned
+                    data3 = bytes(reversed(data[:64])) + b"hw"
+                    hw["frame"] = values.BLOB(data3, ".hw")
+                    mark3 = len(target_link.s_writer.data)
+                    vec.state_ = "Ok"
+                    if await sess.quiesce() < 0:
+                        ctx.violate("stall:after-state-change", "loop did not quiesce", case)
+                        return False
+                    gothw = fullstack.norm_blob(stack.client_view(client).get("CAM", {}).get("IMG", {}).get("elements", {}).get("IMG_E2", (None, None))[1])
+                    ctx.count("read_handler_backed_blobs_published")
+                    too_long = threshold_link and longest_element(target_link.s_writer.data[mark3:]) > THRESHOLD     # the known finding
+                    if gothw != ("blob", data3, ".hw") and not too_long:
+                        ctx.violate("read-handler-backed-blob-not-published", f"client holds {describe(gothw)} for the element whose Read handler supplies "
+                                                                              f"{describe(('blob', data3, '.hw'))} (published by a state change)", case)
+                        return False
                     got3 = fullstack.norm_blob(stack.client_view(client).get("CAM", {}).get("IMG", {}).get("elements", {}).get("IMG_E0", (None, None))[1])
                     ctx.count("republished_same_object")
-                    if got3 != fullstack.norm_blob(("blob", data2, fmt + "2")) and len(data2) + 400 < (THRESHOLD if threshold_link else 10 ** 9):
+                    too_long2 = threshold_link and longest_element(target_link.s_writer.data[mark2:]) > THRESHOLD       # the known finding
+                    if got3 != fullstack.norm_blob(("blob", data2, fmt + "2")) and not too_long2:
                         ctx.violate("republished-blob-object-carries-stale-payload", f"client holds {describe(got3)} after the same BLOB object was "
                                                                                    f"refilled with {describe(('blob', data2, fmt + '2'))} and published again", case)
                         return False
@@ -293,7 +322,7 @@ async def session(ctx, case):
                     return False
         if snoop is not None:
             sv = stack.client_view(snoop).get("CAM", {}).get("IMG", {}).get("elements", {})
-            for k, e in (("IMG_E0", el), ("IMG_E1", D.element_of(drv, "g", "b", "e1"))):
+            for k, e in (("IMG_E0", el), ("IMG_E1", D.element_of(drv, "g", "b", "e1")), ("IMG_E2", D.element_of(drv, "g", "b", "e2"))):
                 have, dev = fullstack.norm_blob(sv.get(k, (None, None))[1]), fullstack.norm_blob(e._value)
                 ctx.count("snooping_client_blob_checks")
                 if have != dev:
